@@ -4,7 +4,8 @@
              "sessions":[{"id","st0":id|null,"arrival","departure"}],
              "events":[{"ts","kind":"Plugin"|"Unplug"|"Recompute","sess"}]   (processing order),
              "full":[[session ids fully charged when post_charging_update runs] per period],
-             "choices":[index into the free list, per random.choice call]}
+             "choices":[index into the free list, per random.choice call],
+             "ledger":null|{…} (see `runLoopLedger`), "sim":null|{…} (see `runLoopSim`)}
   answer  : {"err":null|name, "steps":[{"kind":"ev"|"post","snap":snapshot after the step}], "final":snapshot,
              "arrivals":[id…], "wf":bool, "horizon":n}
   The steps executed are exactly `simSteps full 0 n events` folded with `Net.step`.
@@ -12,6 +13,8 @@
 import AcnModel.Wire
 import AcnModel.Stochastic
 import AcnModel.StochasticLoop
+import AcnModel.SimStochastic
+import AcnModel.Gen.Consts
 open Lean Acn Acn.Wire Acn.Stoch
 
 def jSnap (p : Snapshot) : Json :=
@@ -118,6 +121,56 @@ def runLoopLedger (stations : List String) (early : Bool) (sessions : List Event
     ("events", jList (fun (e : Event) => Json.arr #[jI e.ts, jS e.kind.name, jS e.sess]) g.core.eventHist),
     ("delivered", jList (fun x => Json.arr #[jS x, jF (g.net.2 x)]) ids)]
 
+/-- the FULL simulator on the stochastic network (`Acn.SimSt.run`, the model of `end_to_end_sim`),
+    executed at `Float`: pilot matrix, EVSE validity check, batteries, energies, charging rates, and
+    `fully_charged` computed from them.  The scheduler is the harness' `_Sched`: `amps` for every
+    active session at the station where it sits now (`alt`: 0 A in odd periods; `zero`: always 0 A),
+    `max_recompute = 1`.
+    request "sim": {"V":bits, "period":bits, "amps":bits, "max_rate":bits, "mode":"gen"|"alt"|"zero",
+                    "batt":[capacity,init,max_power] (bits), "evs":[{"id","kwh":bits}]} -/
+def runLoopSim (stations : List String) (early : Bool) (sessions : List EventCore.Session)
+    (req : Sess → Float) (volt period amps maxRate cap binit bmax : Float) (mode : String)
+    (cs : Nat → Nat) (limit : Nat) : Except String Json := do
+  let batt ← match Battery.mkIdeal cap binit bmax with
+    | .ok b => pure b
+    | .error _ => throw "battery constructor rejected the parameters"
+  let cfg : Sim.Cfg Float :=
+    { stations := stations.map (fun st => { id := st, kind := .cont 0.0 (some maxRate), voltage := volt }),
+      evs := sessions.map (fun x =>
+        { session := x.id, station := x.station, arrival := x.arrival, departure := x.departure,
+          estDeparture := x.departure, requested := req x.id, delivered := 0.0, rate := 0.0, batt := batt }),
+      recomputes := [], maxRecompute := some 1, period := period,
+      atolCont := fOfBits Gen.evseAtolBits, atolDeadband := fOfBits Gen.deadbandAtolBits,
+      atolFinite := fOfBits Gen.finiteAtolBits, fullEps := fOfBits Gen.fullyChargedEpsBits, noise := [] }
+  let sched : Sim.View Float → Except EventCore.Err (Sim.Schedule Float) := fun v =>
+    let a := if mode == "zero" || (mode == "alt" && v.iter % 2 == 1) then 0.0 else amps
+    .ok (v.active.map (fun e => (e.station, [a])))
+  let ids := sessions.map (·.id)
+  let mut g := SimSt.init cfg early
+  let mut outs : Array Json := #[]
+  let mut err : Json := Json.null
+  for _ in [0:limit] do
+    if !(EventCore.guard g.core) then break
+    match SimSt.body cs cfg sched g with
+    | (g', none) =>
+      g := g'
+      outs := outs.push (Json.mkObj [
+        ("snap", jSnap (g.net.1.snapshot ids)),
+        ("evse_pilot", jList jF g.net.2.evsePilot),
+        ("delivered", jList (fun (e : Evse.Ev Float) => Json.arr #[jS e.session, jF e.delivered]) g.net.2.evs)])
+    | (g', some e) => g := g'; err := jS e.name; break
+  let n := g.core.iter
+  return Json.mkObj [
+    ("err", err), ("periods", Json.arr outs), ("final", jSnap (g.net.1.snapshot ids)),
+    ("iterations", jN n), ("queue_empty", jB g.core.pending.isEmpty),
+    ("events", jList (fun (e : Event) => Json.arr #[jI e.ts, jS e.kind.name, jS e.sess]) g.core.eventHist),
+    ("delivered", jList (fun (e : Evse.Ev Float) => Json.arr #[jS e.session, jF e.delivered]) g.net.2.evs),
+    ("last_rate", jList (fun (e : Evse.Ev Float) => Json.arr #[jS e.session, jF e.rate]) g.net.2.evs),
+    ("charge", jList (fun (e : Evse.Ev Float) => Json.arr #[jS e.session, jF e.batt.charge]) g.net.2.evs),
+    ("pilots", jList (fun (r : List Float) => jList jF (r.take n)) g.net.2.pilots.rows),
+    ("rates", jList (fun (r : List Float) => jList jF (r.take n)) g.net.2.rates.rows),
+    ("peak", jF g.net.2.peak), ("invoked", jList jN g.core.invoked)]
+
 def handleRun (j : Json) : Except String Json := do
   let stations ← (← getArr j "stations").mapM (fun v => v.getStr?)
   let early ← getBool j "early"
@@ -157,7 +210,17 @@ def handleRun (j : Json) : Except String Json := do
       let reqs ← (← getArr v "req").mapM (fun w => do pure ((← getStr w "id"), (← getF w "kwh")))
       pure (runLoopLedger stations early coreSessions (fun x => (reqs.lookup x).getD 0.0)
         (← getF v "per_period") (← getF v "eps") (← getStr v "mode") cs (n + 2))
+  let sim ← getOpt j "sim" (fun v => pure v)
+  let simOut ← match sim with
+    | none => pure Json.null
+    | some v => do
+      let reqs ← (← getArr v "evs").mapM (fun w => do pure ((← getStr w "id"), (← getF w "kwh")))
+      let b ← (← getArr v "batt").mapM (fun w => do pure (fOfBits (← w.getNat?)))
+      runLoopSim stations early coreSessions (fun x => (reqs.lookup x).getD 0.0)
+        (← getF v "V") (← getF v "period") (← getF v "amps") (← getF v "max_rate")
+        (b.getD 0 0.0) (b.getD 1 0.0) (b.getD 2 0.0) (← getStr v "mode") cs (n + 2)
   pure (Json.mkObj [
+    ("loop_sim", simOut),
     ("loop_ledger", ledgerOut),
     ("loop", runLoop stations early coreSessions full cs (n + 2)),
     ("err", err), ("steps", Json.arr outs), ("final", jSnap (s.snapshot ids)),
